@@ -445,9 +445,16 @@ func (w *worker) collectGlobalCells() {
 	if prefix == "" {
 		return
 	}
+	// the variable's own cells and everything reachable from it through pointers, slices and interfaces: an
+	// object a package-level variable points to (a cache, a random source, a buffer) is process-wide state just as
+	// the variable itself
 	var walk func(p *value, name string, depth int)
+	var follow func(v value, name string, depth int)
 	walk = func(p *value, name string, depth int) {
-		if p == nil || depth > 4 {
+		if p == nil || depth > 8 {
+			return
+		}
+		if _, seen := w.globalCells[p]; seen {
 			return
 		}
 		w.globalCells[p] = name
@@ -460,6 +467,21 @@ func (w *worker) collectGlobalCells() {
 			for i := range c {
 				walk(&c[i], name, depth+1)
 			}
+		default:
+			follow(c, name, depth+1)
+		}
+	}
+	follow = func(v value, name string, depth int) {
+		switch x := v.(type) {
+		case *value:
+			walk(x, name+" (object it points to)", depth)
+		case []value:
+			full := x[:cap(x)]
+			for i := range full {
+				walk(&full[i], name+" (element)", depth)
+			}
+		case iface:
+			follow(x.v, name, depth)
 		}
 	}
 	for g, cell := range w.i.globals {
